@@ -71,6 +71,10 @@ unsigned vp_events;
 	} \
 	0; })
 
+/* wait point (usleep in a polling loop): the thread waits for progress of the receiver / auto-flush thread, so it must not
+ * hold any lock those threads may need - otherwise the wait never ends (C11 "no call blocks forever") */
+#define VP_WAIT_ONE(i, name, type) __CPROVER_assert(vp_held[i] == 0, "C11.wait_without_locks: waiting for another thread while holding " #name);
+#define VP_WAIT_POINT() ({ VP_LOCK_LIST(VP_WAIT_ONE) 0; })
 #define pthread_mutex_lock(m) VP_ACQUIRE((m), 0)
 #define pthread_mutex_unlock(m) VP_RELEASE((m))
 #define pthread_rwlock_rdlock(m) VP_ACQUIRE((m), 1)
